@@ -49,6 +49,9 @@ def areEqual (P Q : List K) : Bool := decide (setdegree P = setdegree Q)
 /-- `getEntry(c, i, P)` -/
 def getEntry (i : Nat) (P : List K) : K := (setdegree P).getD i 0
 
+/-- `assign(P, Degree(0), c)` / `assign(P, c)`: the constant polynomial `c` (`[]` when `c` is zero) -/
+def assignC (c : K) : List K := if c = 0 then [] else [c]
+
 /-- `assign(P, Q)` (givpoly1cstor.inl): copies the *normalised* `Q` -/
 def assign (Q : List K) : List K := setdegree Q
 
@@ -295,6 +298,18 @@ def sqrR (thr : Nat) (two : K) : Nat → List K → List K
 def sqr (thr : Nat) (P : List K) : List K :=
   if P.isEmpty then [] else sqrR thr (1 + 1) P.length P
 
+/-! ### givpoly1muldiv.inl: truncated product `mul(R,P,Q,Val,deg)` (coefficients `Val … deg` of the product) -/
+
+/-- for each `i` the inner loop `for (; j<sP && k>=0; ++j,--k) axpyin(R[i],P[j],Q[k])` starts at
+    `k = min(i+Val, sQ-1)`, `j = i+Val-k`; then `setdegree` -/
+def mulWindow (P Q : List K) (val deg : Nat) : List K :=
+  if P.isEmpty ∨ Q.isEmpty then [] else
+  let newS := if deg < val then 0 else deg - val + 1
+  setdegree ((List.range newS).map (fun i =>
+    let k0 := if i + val ≥ Q.length then Q.length - 1 else i + val
+    let j0 := i + val - k0
+    dot (P.drop j0) ((Q.take (k0 + 1)).reverse) 0))
+
 /-! ### givpoly1axpy.inl: fused forms (compositions of the above, as in the source) -/
 
 def axpy (thr : Nat) (A X Y : List K) : List K := addin (mul thr A X) Y
@@ -345,15 +360,74 @@ def spread (b : Nat) : List K → List K
   | [a] => [a]
   | a :: P => a :: (zeros (b - 1) ++ spread b P)
 
-def powerCompose (P : List K) (b : Nat) : List K := setdegree (spread b (setdegree P))
+/-- `power_compose(W,P,b)` (as repaired by fixes/C08_2 and C08_6): the zero polynomial for `P = 0`; for `b = 0` the
+    constant `P(1)`, accumulated as `s += P[i]` from `s = 0` and stored through `assign(W, Degree(0), s)`;
+    otherwise the coefficients are spread -/
+def powerCompose (P : List K) (b : Nat) : List K :=
+  match setdegree P with
+  | [] => []
+  | Pn => if b = 0 then assignC (Pn.foldl (fun s a => s + a) 0) else setdegree (spread b Pn)
+
+/-- `power_compose(W,P,0)` before fixes/C08_6: every coefficient below the leading one is written to `W[0]` in turn -/
+def powerCompose0_unrepaired (P : List K) : List K :=
+  match setdegree P with
+  | [] => []
+  | Pn => setdegree [(Pn.dropLast.getLast?).getD (Pn.getLast?.getD 0)]
 
 /-- `modpowx(Am, A, l)`: `assign`, `resize(l)`, `setdegree` -/
 def modpowx (A : List K) (l : Nat) : List K := setdegree (pad l (assign A))
 
-/-! ### givpoly1gcd.inl: extended gcd `gcd(F,S0,T0,A,B)` -/
+/-! ### givpoly1muldiv.inl: Newton inverse modulo X^l and fast division -/
 
-/-- `assign(P, Degree(0), c)` / `assign(P, c)`: the constant polynomial `c` (`[]` when `c` is zero) -/
-def assignC (c : K) : List K := if c = 0 then [] else [c]
+/-- `newtoninviter(G,S,Am,A,i)`: `S = G²`; `G += G`; `Am` = the first `i` coefficients of `A[0, min(i,|A|)) · S`
+    (generic range product); `G -= Am` -/
+def newtoninviter (thr : Nat) (G A : List K) (i : Nat) : List K :=
+  let S := sqr thr G
+  let G2 := addin G G
+  let Ap := A.take i
+  let Am := pad i (mulR thr (Ap.length + S.length) i Ap S)
+  subin G2 Am
+
+/-- `for (Degree i(2); i < l; i <<= 1) newtoninviter(G,S,Am,A,i)` -/
+def invmodpowxLoop (thr : Nat) (A : List K) (l : Nat) : Nat → Nat → List K → List K
+  | 0, _, G => G
+  | fuel + 1, i, G =>
+    if i < l then invmodpowxLoop thr A l fuel (2 * i) (newtoninviter thr G A i) else G
+
+/-- `invmodpowx(G,A,l)`: `G = [1/A[0]]`, the doubling loop, and a last iteration at precision `l` -/
+def invmodpowx (thr : Nat) (A : List K) (l : Nat) : List K :=
+  newtoninviter thr (invmodpowxLoop thr A l l 2 [(A.getD 0 0)⁻¹]) A l
+
+/-- `div(Q,A,B)` (precondition `B ≠ 0`): zero when `deg A < deg B`; coefficientwise when `B` is a constant; else
+    `rev(Q) = rev(A) · rev(B)⁻¹ mod X^(deg A - deg B + 1)` with the Newton inverse, then `reversein` -/
+def div (thr : Nat) (A B : List K) : List K :=
+  let An := setdegree A
+  let Bn := setdegree B
+  if degree A < degree B then []
+  else if degree B = 0 then divVal An (Bn.getD 0 0)
+  else
+    let degX := An.length - Bn.length + 1
+    let S := invmodpowx thr (reverse Bn) degX
+    let T := reverse An
+    reverse (pad degX (mulR thr (S.length + T.length) degX S T))
+
+/-- `divmod(Q,R,A,B) = div(Q,A,B); maxpy(R,Q,B,A)` (both operands were normalised in place by `div`) -/
+def divmod (thr : Nat) (A B : List K) : List K × List K :=
+  let Q := div thr A B
+  (Q, maxpy thr Q (setdegree B) (setdegree A))
+
+/-- `mod(R,A,B)`: the remainder of `divmod` -/
+def mod (thr : Nat) (A B : List K) : List K := (divmod thr A B).2
+
+/-- `divin(Q,A)`: `div(B,Q,A); assign(Q,B)` -/
+def divin (thr : Nat) (Q A : List K) : List K := assign (div thr Q A)
+
+/-- `divmodin(Q,R,B)`: `div(Q,R,B); maxpyin(R,Q,B)` -/
+def divmodin (thr : Nat) (R B : List K) : List K × List K :=
+  let Q := div thr R B
+  (Q, maxpyin thr (setdegree R) Q (setdegree B))
+
+/-! ### givpoly1gcd.inl: extended gcd `gcd(F,S0,T0,A,B)` -/
 
 /-- the `while (!isZero(G))` loop.  `divf` is the quotient `div(Q,F,G)` (Newton division, not modelled: a parameter);
     everything else is as in the source: `divmod = div; maxpy`, `r1 = leadcoef(R1)` (one when zero), `F = G`,
@@ -384,5 +458,86 @@ def gcdext (thr : Nat) (divf : List K → List K → List K) (fuel : Nat) (A B :
     let r0 := leadcoef A
     let r1 := leadcoef B
     gcdextLoop thr divf fuel (divVal (assign A) r0) (divVal (assign B) r1) (assignC r0⁻¹) [] [] (assignC r1⁻¹)
+
+/-! ### givpoly1gcd.inl: plain `gcd(G,P,Q)` -/
+
+/-- the `do { mod(R,U,G); setdegree(R); if (degR < 0) break; U = G; G = R; } while (1)` loop (`none`: not finished within `fuel`) -/
+def gcdLoop (thr : Nat) : Nat → List K → List K → Option (List K)
+  | 0, _, _ => none
+  | fuel + 1, U, G =>
+    let R := setdegree (mod thr U G)
+    if degree R < 0 then some G else gcdLoop thr fuel (assign G) (assign R)
+
+/-- `gcd(G,P,Q)`: early exits, the operand of larger degree first, the remainder sequence, and `1` for a constant result -/
+def gcd (thr fuel : Nat) (P Q : List K) : Option (List K) :=
+  if degree P < 0 ∨ degree Q = 0 then some (assign Q)
+  else if degree Q < 0 ∨ degree P = 0 then some (assign P)
+  else
+    match (if degree P ≥ degree Q then gcdLoop thr fuel (assign P) (assign Q)
+           else gcdLoop thr fuel (assign Q) (assign P)) with
+    | none => none
+    | some G => if degree G ≤ 0 then some [1] else some G
+
+/-! ### givpoly1gcd.inl: `invmod(S0,A,B)` -/
+
+/-- the loop of `invmod`: the loop of the extended gcd without the `T` cofactors -/
+def invmodLoop (thr : Nat) (divf : List K → List K → List K) :
+    Nat → List K → List K → List K → List K → Option (List K)
+  | 0, _, _, _, _ => none
+  | fuel + 1, F, G, S0, S1 =>
+    if isZero G then some S0 else
+      let Q := divf F G
+      let R1 := maxpy thr Q G F
+      let r1 := if leadcoef R1 = 0 then 1 else leadcoef R1
+      invmodLoop thr divf fuel (assign G) (divVal R1 r1) (assign S1) (divVal (sub S0 (mul thr Q S1)) r1)
+
+/-- `invmod(S0,A,B)`: `1/leadcoef(A)` when an operand has degree ≤ 0, else the cofactor of `A` from the monic remainder sequence -/
+def invmod (thr fuel : Nat) (A B : List K) : Option (List K) :=
+  if degree A ≤ 0 ∨ degree B ≤ 0 then some (assignC (leadcoef A)⁻¹)
+  else invmodLoop thr (div thr) fuel (divVal (assign A) (leadcoef A)) (divVal (assign B) (leadcoef B))
+         (assignC (leadcoef A)⁻¹) []
+
+/-! ### givpoly1gcd.inl: `lcm(F,A,B)` -/
+
+/-- the loop of `lcm` (the same remainder sequence with both cofactor rows); the value used after the loop is `S1` -/
+def lcmLoop (thr : Nat) (divf : List K → List K → List K) :
+    Nat → List K → List K → List K → List K → List K → List K → Option (List K)
+  | 0, _, _, _, _, _, _ => none
+  | fuel + 1, F, G, S0, S1, T0, T1 =>
+    if isZero G then some S1 else
+      let Q := divf F G
+      let R1 := maxpy thr Q G F
+      let r1 := if leadcoef R1 = 0 then 1 else leadcoef R1
+      lcmLoop thr divf fuel (assign G) (divVal R1 r1)
+        (assign S1) (divVal (sub S0 (mul thr Q S1)) r1)
+        (assign T1) (divVal (sub T0 (mul thr Q T1)) r1)
+
+/-- `lcm(F,A,B)` (as repaired by fixes/C08_3): zero for a zero operand, the other operand for a constant one, else the
+    operand of larger degree `X` first and the result `S1·X` (after the loop `G` is zero, so `degG <= 0` always holds) -/
+def lcm (thr fuel : Nat) (A B : List K) : Option (List K) :=
+  if degree A < 0 then some []
+  else if degree B < 0 then some []
+  else if degree B = 0 then some (assign A)
+  else if degree A = 0 then some (assign B)
+  else
+    let Xs := if degree A ≥ degree B then A else B
+    let Ys := if degree A ≥ degree B then B else A
+    match lcmLoop thr (div thr) fuel (divVal (assign Xs) (leadcoef Xs)) (divVal (assign Ys) (leadcoef Ys))
+            (assignC (leadcoef Xs)⁻¹) [] [] (assignC (leadcoef Ys)⁻¹) with
+    | none => none
+    | some S1 => some (mul thr S1 Xs)
+
+/-! ### givpoly1misc.inl: `pow(W,P,n)` (square and multiply, least significant bit first) -/
+
+/-- `while (p != 0) { if (p & 1) W = W·puiss2; if ((p >>= 1) != 0) puiss2 = puiss2²; }` (products by the generic `mul`) -/
+def powLoop (thr : Nat) : Nat → Nat → List K → List K → List K
+  | 0, _, W, _ => W
+  | fuel + 1, p, W, puiss2 =>
+    if p = 0 then W else
+      let W' := if p % 2 = 1 then assign (mul thr W puiss2) else W
+      let puiss2' := if p / 2 ≠ 0 then assign (mul thr puiss2 puiss2) else puiss2
+      powLoop thr fuel (p / 2) W' puiss2'
+
+def pow (thr : Nat) (P : List K) (n : Nat) : List K := powLoop thr (n + 1) n (assign [1]) (assign P)
 
 end Givaro.Model.Poly
